@@ -31,6 +31,7 @@ type Env struct {
 	quiet    bool
 	own      bool // evaluating the contract of the function being translated
 	pol      int  // +1: must be proved, -1: may be used, 0: unknown
+	lets     map[string]*Expr // abbreviations of the contract being evaluated (callee contracts at call sites)
 	instOnly []Val // when set: instantiate quantified hypotheses with exactly these terms and drop the quantified original
 	inQuant  bool
 	bound    map[string]Val
@@ -147,6 +148,8 @@ func (e *Env) typeByName(n string) types.Type {
 	switch n {
 	case "wide":
 		return tyWide
+	case "mathint":
+		return tyMath
 	case "byte":
 		return types.Typ[types.Uint8]
 	case "Ref":
@@ -200,6 +203,10 @@ func (e *Env) lookupType(x *Expr) types.Type {
 				return types.NewPointer(t)
 			}
 		}
+	case "slicetype":
+		if t := e.lookupType(x.A[0]); t != nil {
+			return types.NewSlice(t)
+		}
 	}
 	return nil
 }
@@ -230,6 +237,12 @@ func (e *Env) coerce(v Val, to types.Type) Val {
 	}
 	if to == nil {
 		to = intT
+	}
+	if to == tyMath {
+		if v.Const.Sign() < 0 {
+			return Val{T: fmt.Sprintf("(- %s)", new(big.Int).Neg(v.Const).String()), Ty: to}
+		}
+		return Val{T: v.Const.String(), Ty: to}
 	}
 	if !isInteger(to) {
 		e.fail("integer constant used with non-integer type %s", to)
@@ -324,7 +337,10 @@ func (e *Env) ident(name string) Val {
 	if v, ok := e.vars[name]; ok {
 		return v
 	}
-	if x, ok := tr.lets[name]; ok {
+	if x, ok := e.lets[name]; ok {
+		return e.eval(x)
+	}
+	if x, ok := tr.lets[name]; ok && e.own {
 		return e.eval(x)
 	}
 	// results
@@ -699,6 +715,22 @@ func (e *Env) binary(x *Expr) Val {
 		}
 		return Val{T: t, Ty: boolT}
 	}
+	if a.Ty == tyMath || b.Ty == tyMath {
+		if a.Ty != tyMath || b.Ty != tyMath {
+			e.fail("mathint mixed with machine integer in %s (convert with mathint(x))", op)
+		}
+		switch op {
+		case "+", "-", "*":
+			return Val{T: fmt.Sprintf("(%s %s %s)", op, a.T, b.T), Ty: tyMath}
+		case "/":
+			return Val{T: fmt.Sprintf("(div %s %s)", a.T, b.T), Ty: tyMath}
+		case "%":
+			return Val{T: fmt.Sprintf("(mod %s %s)", a.T, b.T), Ty: tyMath}
+		case "<", "<=", ">", ">=":
+			return Val{T: fmt.Sprintf("(%s %s %s)", op, a.T, b.T), Ty: boolT}
+		}
+		e.fail("operator %s on mathint", op)
+	}
 	if !isInteger(a.Ty) {
 		if tr.smt.sortOf(a.Ty) == "Bool" {
 			e.fail("operator %s on booleans", op)
@@ -1049,6 +1081,22 @@ func (e *Env) callExpr(x *Expr) Val {
 			return Val{T: tr.lit64(u.Len()), Ty: intT}
 		}
 		e.fail("len of %s", v.Ty)
+	case "mathint":
+		v := e.eval(x.A[0])
+		if v.Const != nil {
+			return e.coerce(v, tyMath)
+		}
+		if !isInteger(v.Ty) {
+			e.fail("mathint() of non-integer")
+		}
+		if v.Ty == tyMath || tr.smt.intMode {
+			return Val{T: v.T, Ty: tyMath}
+		}
+		if isUnsigned(v.Ty) {
+			return Val{T: fmt.Sprintf("(bv2nat %s)", v.T), Ty: tyMath}
+		}
+		w := intWidth(v.Ty)
+		return Val{T: fmt.Sprintf("(ite (bvslt %s %s) (- (bv2nat %s) %s) (bv2nat %s))", v.T, tr.smt.intLit(big.NewInt(0), w), v.T, new(big.Int).Lsh(big.NewInt(1), uint(w)).String(), v.T), Ty: tyMath}
 	case "wide":
 		v := e.eval(x.A[0])
 		if v.Const != nil {
@@ -1092,6 +1140,22 @@ func (e *Env) callExpr(x *Expr) Val {
 		}
 		_, unbox := tr.smt.boxFn(tr.smt.sortOf(ty))
 		return Val{T: fmt.Sprintf("(%s (idata %s))", unbox, v.T), Ty: ty}
+	case "has":
+		// has(m, k): key k is present in map m
+		if len(x.A) != 2 {
+			e.fail("has(m, k)")
+		}
+		m := e.eval(x.A[0])
+		mt, ok := m.Ty.Underlying().(*types.Map)
+		if !ok {
+			e.fail("has() needs a map")
+		}
+		k := e.eval(x.A[1])
+		if k.Const != nil {
+			k = e.coerce(k, mt.Key())
+		}
+		domS := fmt.Sprintf("(Array %s Bool)", tr.smt.sortOf(mt.Key()))
+		return Val{T: fmt.Sprintf("(and (not (= %s nil)) (select (select %s %s) %s))", m.T, e.heap.lookup(domS), m.T, k.T), Ty: boolT}
 	case "nonnil":
 		v := e.eval(x.A[0])
 		return Val{T: tr.boolNot(e.isNil(v)), Ty: boolT}
@@ -1189,9 +1253,12 @@ func (e *Env) quant(x *Expr) Val {
 			n := tr.smt.fresh("sk_"+qv.Name, tr.smt.sortOf(t))
 			v := Val{T: n, Ty: t}
 			b[qv.Name] = v
-			if e.pol > 0 {
+			switch {
+			case e.instOnly != nil:
+				// witness created while re-instantiating: not a new instantiation term (no cascades)
+			case e.pol > 0:
 				tr.skolems = append(tr.skolems, v) // skolem of a goal: local to the obligation
-			} else {
+			default:
 				tr.idxCands = append(tr.idxCands, v) // witness named by a hypothesis: usable everywhere after
 			}
 		}
@@ -1218,7 +1285,8 @@ func (e *Env) quant(x *Expr) Val {
 		seen := map[string]bool{}
 		cands := tr.candidates(srt)
 		if e.instOnly != nil {
-			cands = tr.candidatesOf(e.instOnly, srt)
+			// new index terms combined with the ones already known (needed for nested quantifiers)
+			cands = tr.candidatesOf(append(append([]Val{}, tr.globalCands()...), e.instOnly...), srt)
 		}
 		for _, c := range cands {
 			if seen[c] {
@@ -1232,8 +1300,9 @@ func (e *Env) quant(x *Expr) Val {
 			if x.Op == "forall" {
 				return Val{T: and(insts...), Ty: boolT}
 			}
-			// an existential hypothesis contributes nothing new when re-instantiated
-			return Val{T: "true", Ty: boolT}
+			// an existential in "usable" position stands where a stronger formula is sound:
+			// the disjunction of its instances (false when there is none)
+			return Val{T: or(insts...), Ty: boolT}
 		}
 		if dropQuantified {
 			// generator-side instantiation only: the query stays quantifier-free
@@ -1247,8 +1316,8 @@ func (e *Env) quant(x *Expr) Val {
 		}
 		return Val{T: or(append([]string{q}, insts...)...), Ty: boolT}
 	}
-	if e.instOnly != nil && toUse {
-		return Val{T: "true", Ty: boolT}
+	if e.instOnly != nil && toUse && x.Op == "forall" {
+		return Val{T: "true", Ty: boolT} // weaker is sound for a universal hypothesis
 	}
 	return Val{T: q, Ty: boolT}
 }
